@@ -127,6 +127,15 @@ func runC08Round(dir string, g *rand.Rand, creators, nplugins, perCreator, faili
 		cp.p = rig.NewPlugin(fmt.Sprintf("s%d", i), fmt.Sprintf("%02d", g.IntN(100)), evBit(api.Event_CREATE_CONTAINER), h)
 		plugins = append(plugins, cp)
 	}
+	// ahead of everybody in the chain (index 00) sits a plugin that is registered but not subscribed to container
+	// creation: a relay loop that stops at the first plugin with nothing to say would starve all the others
+	bystander := rig.NewPlugin("bystander", "00", evBit(api.Event_START_CONTAINER), rig.Handlers{})
+	if err := bystander.Connect(rt.Sock); err != nil || !bystander.WaitSynced(30*time.Second) {
+		res.Note("%s: the bystander plugin did not come up: %v", tag, err)
+	} else {
+		res.Count("rounds_with_an_unsubscribed_plugin_first_in_the_chain", 1)
+	}
+	defer bystander.StopStub()
 	create := func(id string, doubleUnblock bool) error {
 		b := rt.A.BlockPluginSync()
 		mon.Lock()
@@ -628,7 +637,7 @@ func init() {
 	register(&Check{
 		ID: "C08", Level: "exploration", MinNontriv: 3,
 		Anchors: []string{"pkg/adaptation/adaptation.go"},
-		Rule:    "rounds with 1-8 creator goroutines (BlockPluginSync; add to store; CreateContainer; Unblock, sometimes twice) and 2-6 stub plugins registering at seeded moments while creation runs, hook yields of 0-2 ms at the three synchronisation points in every other round; offline exactly-once oracle over snapshot ids and creation ids against the runtime's own store incl. a fence creation, online monitor of blocks held vs synchronisations in progress (both directions), bounded completion of pending registrations; every second round one more plugin that speaks the protocol directly and answers Configure with an empty mask (= every event) under the same exactly-once oracle; meanwhile two goroutines relay requests that need no sync block (one StartContainer, one rotating through the eleven other kinds besides CreateContainer, each with its own relay function) under the race detector; every fifth round with 100 (one round: 190) ballast containers of 50 KiB under one pod so that snapshots are split in two (three) messages, plugin 0 there losing its first connection inside the second snapshot message and registering again with the same stub; one scenario per child with a sync block taken before Start and held across a registration and a creation; bounded-progress monitor between the hooks sync.request and sync.exclusive (all-blocks-released moments while a registration waits; alarm above 200); distinct = distinct (snapshot size bucket, event count bucket) splits observed per registration",
+		Rule:    "rounds with 1-8 creator goroutines (BlockPluginSync; add to store; CreateContainer; Unblock, sometimes twice) and 2-6 stub plugins registering at seeded moments while creation runs, hook yields of 0-2 ms at the three synchronisation points in every other round; offline exactly-once oracle over snapshot ids and creation ids against the runtime's own store incl. a fence creation, online monitor of blocks held vs synchronisations in progress (both directions), bounded completion of pending registrations; a registered plugin not subscribed to creation sits first in the chain (index 00); every second round one more plugin that speaks the protocol directly and answers Configure with an empty mask (= every event) under the same exactly-once oracle; meanwhile two goroutines relay requests that need no sync block (one StartContainer, one rotating through the eleven other kinds besides CreateContainer, each with its own relay function) under the race detector; every fifth round with 100 (one round: 190) ballast containers of 50 KiB under one pod so that snapshots are split in two (three) messages, plugin 0 there losing its first connection inside the second snapshot message and registering again with the same stub; one scenario per child with a sync block taken before Start and held across a registration and a creation; bounded-progress monitor between the hooks sync.request and sync.exclusive (all-blocks-released moments while a registration waits; alarm above 200); distinct = distinct (snapshot size bucket, event count bucket) splits observed per registration",
 		Assumptions: []string{
 			"the runtime performs each creation together with its bookkeeping inside one plugin-sync block, as the documented contract requires",
 			"request/registration timeouts are set to 60 s so that a loaded machine cannot make a healthy plugin look dead",
